@@ -13,7 +13,7 @@ import (
 func init() {
 	register("C20", &ruleSet{
 		run:    runC20,
-		floors: map[string]int{"O1": 8, "O2": 4, "O3": 8, "O4": 8, "O5": 10},
+		floors: map[string]int{"O1": 8, "O2": 4, "O3": 10, "O4": 8, "O5": 10},
 		explain: "Decides structurally: (O1) CommonMetricSampler.Sample emits, on every path, the rtt parameter once to the listener registered under the RTT metric, the " +
 			"in-flight parameter once to the one registered under the in-flight metric, and 1 to the drop counter if and only if the drop flag's true edge was taken; every " +
 			"limit implementation owning a sampler calls Sample exactly once on every OnSample path with its own three parameters; (O2) every strategy emission carries the " +
@@ -41,6 +41,7 @@ func runC20(p *Prog, l *Ledger) {
 	c20WindowInFlight(p, l)
 	c20StrategyEmissions(p, l)
 	c20Gauges(p, l)
+	c20SupplierWrappers(p, l)
 	c20Registries(p, l)
 }
 
@@ -214,6 +215,79 @@ func c20Sample(p *Prog, l *Ledger) {
 		})
 		l.Check(len(obad) == 0, "O1", p.Key(fn), p.FuncPos(fn), fmt.Sprintf("%d paths; each calls Sample(rtt, inFlight, didDrop) exactly once", n), "a sample can be processed without (or with altered) metrics", obad...)
 	}
+}
+
+// c20SupplierWrappers: core's supplier wrappers hand the wrapped function's value through: the closure they return
+// yields (conversion of f(), true) on every path - a wrapper that suppresses some values (zero, negative) freezes the
+// gauge at its last reading.
+func c20SupplierWrappers(p *Prog, l *Ledger) {
+	sup := p.coreNamed("MetricSupplier")
+	n := 0
+	for _, f := range p.Funcs {
+		if !p.InPkg(f, "core") || f.Parent() != nil || f.Signature.Results().Len() != 1 || sup == nil || !types.Identical(f.Signature.Results().At(0).Type(), sup) || len(f.Params) != 1 {
+			continue
+		}
+		if _, isSig := f.Params[0].Type().Underlying().(*types.Signature); !isSig {
+			continue
+		}
+		n++
+		var bad []string
+		var closures []*ssa.Function
+		allInstrs(f, func(ins ssa.Instruction) {
+			if mc, ok := ins.(*ssa.MakeClosure); ok {
+				closures = append(closures, mc.Fn.(*ssa.Function))
+			}
+		})
+		if len(closures) != 1 {
+			bad = append(bad, "the wrapper does not return a single closure over the wrapped function")
+		}
+		for _, cl := range closures {
+			np := 0
+			EnumPaths(cl, 1000, func(pa *Path) bool {
+				if !pa.IsReturn() {
+					return true
+				}
+				np++
+				rv := pa.ReturnValues()
+				if len(rv) != 2 {
+					bad = append(bad, "unexpected result shape")
+					return false
+				}
+				if b, isC := constBool(strip(rv[1], false)); !isC || !b {
+					bad = append(bad, "a path reports 'no value' (ok=false): "+joinWitness(p.DescribePath(pa)))
+				}
+				v := strip(rv[0], true)
+				if cv, ok := v.(*ssa.Convert); ok {
+					v = strip(cv.X, true)
+				}
+				call, ok := v.(*ssa.Call)
+				if !ok || len(cl.FreeVars) == 0 || strip(call.Call.Value, false) != ssa.Value(cl.FreeVars[0]) && !c20IsLoadOfFreeVar(call.Call.Value, cl) {
+					bad = append(bad, "a path does not return the wrapped function's value: "+valueString(v))
+				}
+				return len(bad) < 3
+			})
+			if np == 0 {
+				bad = append(bad, "the closure has no returning path")
+			}
+		}
+		l.Check(len(bad) == 0, "O3", p.Key(f)+"/passes-through", p.FuncPos(f), "returns (conversion of the wrapped function's value, true) on every path", "a gauge built with this wrapper can freeze at a stale reading", bad...)
+	}
+	if n == 0 {
+		l.Infra("no supplier wrapper found in package core")
+	}
+}
+
+func c20IsLoadOfFreeVar(v ssa.Value, cl *ssa.Function) bool {
+	v = strip(v, false)
+	for _, fv := range cl.FreeVars {
+		if v == ssa.Value(fv) {
+			return true
+		}
+		if u, ok := v.(*ssa.UnOp); ok && u.X == ssa.Value(fv) {
+			return true
+		}
+	}
+	return false
 }
 
 // ---------------------------------------------------------------- O2
